@@ -11,7 +11,10 @@ package main
 //   perm      -  |  op admin present message observe caption  |  [a+b+c] (raw array)
 //   user      <name|~>:<password>:<perm>            (~ is the empty user name)
 //   key       K<id> oct/HS256   E<id> EC public   D<id> EC with private "d"   B<id> malformed (no alg)
-//   group     c<len>;a<0|1>;u=<user,...|->;w=<password>:<perm>|-;k=<key,...|->
+//   group     c<len>;a<0|1>;u=<user,...|->;w=<password>:<perm>|-;k=<key,...|->[;s1][;o=<legacy,...>][;p=<legacy,...>][;t=<legacy,...>]
+//             the optional sections are the LEGACY file format that group.upgradeDescription folds into users at load
+//             time: s1 = "allow-subgroups": true; o= / p= / t= are the arrays "op" / "presenter" / "other" in file order
+//   legacy    <name|~>:<password|->   (~ : no username = a wildcard entry;  - : no password field = any password)
 //   token     <name>:<group|->:<sub 0|1>:<user|->:<perm+perm|->:<ok|expired|noexp|future>
 
 import (
@@ -182,8 +185,44 @@ func section(canon, name string) string {
 	panic("missing section " + name + " in " + canon)
 }
 
+func optSection(canon, name string) (string, bool) {
+	for _, s := range strings.Split(canon, ";") {
+		if strings.HasPrefix(s, name) {
+			return s[len(name):], true
+		}
+	}
+	return "", false
+}
+
+var legacyFields = []struct{ sec, field string }{{"o=", "op"}, {"p=", "presenter"}, {"t=", "other"}}
+
+func (e *eng) legacyList(entries string) []any {
+	var out []any
+	for _, u := range strings.Split(entries, ",") {
+		f := strings.Split(u, ":")
+		m := map[string]any{}
+		if f[0] != "~" {
+			m["username"] = f[0]
+			e.markers[f[0]] = true
+		}
+		if f[1] != "-" {
+			m["password"] = json.RawMessage(e.pwJSON(f[1]))
+		}
+		out = append(out, m)
+	}
+	return out
+}
+
 func (e *eng) descMap(canon string) map[string]any {
 	m := map[string]any{}
+	if _, ok := optSection(canon, "s1"); ok {
+		m["allow-subgroups"] = true
+	}
+	for _, lf := range legacyFields {
+		if l, ok := optSection(canon, lf.sec); ok {
+			m[lf.field] = e.legacyList(l)
+		}
+	}
 	n := 0
 	fmt.Sscanf(section(canon, "c"), "%d", &n)
 	if n > 0 {
@@ -430,9 +469,21 @@ func (e *eng) canonGroupBytes(b []byte) string {
 	var wild *rawUser
 	var keys []map[string]any
 	extra := 0
+	allowSub := false
+	legacy := map[string][]struct {
+		Username *string         `json:"username"`
+		Password json.RawMessage `json:"password"`
+	}{}
 	for k, v := range top {
 		var err error
 		switch k {
+		case "allow-subgroups":
+			err = json.Unmarshal(v, &allowSub)
+		case "op", "presenter", "other":
+			l := legacy[k]
+			err = json.Unmarshal(v, &l)
+			legacy[k] = l
+
 		case "description":
 			err = json.Unmarshal(v, &desc)
 		case "auto-subgroups":
@@ -484,6 +535,22 @@ func (e *eng) canonGroupBytes(b []byte) string {
 		kstr = strings.Join(ks, ",")
 	}
 	out := fmt.Sprintf("c%d;a%s;u=%s;w=%s;k=%s", len(desc), b2s(auto), ustr, w, kstr)
+	if allowSub {
+		out += ";s1"
+	}
+	for _, lf := range legacyFields {
+		if l := legacy[lf.field]; len(l) > 0 {
+			var es []string
+			for _, en := range l {
+				name := "~"
+				if en.Username != nil && *en.Username != "" {
+					name = *en.Username
+				}
+				es = append(es, name+":"+e.pwSym(en.Password))
+			}
+			out += ";" + lf.sec + strings.Join(es, ",")
+		}
+	}
 	if extra > 0 {
 		out += fmt.Sprintf(";x%d", extra)
 	}
@@ -605,6 +672,7 @@ func (e *eng) canonTokens(full string) string {
 //
 //   -                      no body
 //   desc:<len>:<auto>      sanitised group description
+//   descl:<len>:<o|p|t>:<legacy>  description carrying one entry in a legacy op/presenter/other array
 //   descu:<len>            description carrying a (non-nil) users map      (must be refused)
 //   descw:<len>            description carrying a wildcard user             (must be refused)
 //   desck:<len>            description carrying authKeys                    (must be refused)
@@ -630,6 +698,8 @@ func (e *eng) bodyBytes(sym string) []byte {
 		return []byte(`{"zzz":1}`)
 	case "desc":
 		v = e.descMap(fmt.Sprintf("c%s;a%s;u=-;w=-;k=-", f[1], f[2]))
+	case "descl":
+		v = e.descMap(fmt.Sprintf("c%s;a0;u=-;w=-;k=-;%s=%s:%s", f[1], f[2], f[3], f[4]))
 	case "descu":
 		m := e.descMap(fmt.Sprintf("c%s;a0;u=-;w=-;k=-", f[1]))
 		m["users"] = map[string]any{"usrEve": e.userMap("p.eve", "admin")}
